@@ -479,7 +479,11 @@ def autoforwards_ast(func, func_ast, sig, args=(), kwargs={}):
         func, CallListerVisitor(func_ast),
         args, kwargs, sig))
     if sigs:
-        return _signatures.merge(*sigs)
+        try:
+            return _signatures.merge(*sigs)
+        except ValueError:
+            raise UnknownForwards(
+                'Forwarding calls have incompatible signatures')
     else:
         raise UnknownForwards('No forwarding of *args, **kwargs found')
 
